@@ -278,6 +278,125 @@ def k2_astdiff(rep: Report, tier: str) -> None:
         rep.candidate(key, f"triggered names {got} != expected {want}", model, replay)
 
 
+# --- K3: snapshot_symbol_table / snapshot_definition are sensitive to the externally visible attributes
+VISIBLE = {
+    # node kind -> attributes of the node whose change alters how *other* modules are checked
+    "Var": ["is_final"],
+    "Func": ["is_property", "is_final", "is_class", "is_static"],
+    "TypeInfo": ["is_abstract", "is_enum", "is_protocol", "fallback_to_any", "is_named_tuple", "is_newtype"],
+    "Moduleref": [],
+    "CrossRef": [],
+}
+
+
+def _mk_symbol(kind: str, vals: dict) -> Any:
+    """A real SymbolTableNode around a real node of the requested kind; `vals` maps attribute -> value
+    (symbolic in the kernel, concrete in the replay)."""
+    from mypy import nodes as N
+    from mypy.types import AnyType, TypeOfAny
+
+    if kind == "Var":
+        node: Any = N.Var("x", AnyType(TypeOfAny.special_form))
+        node._fullname = "m.x"
+    elif kind == "Func":
+        node = N.FuncDef("x", [], N.Block([]))
+        node._fullname = "m.x"
+    elif kind == "TypeInfo":
+        node = N.TypeInfo(N.SymbolTable(), N.ClassDef("x", N.Block([])), "m")
+        node._fullname = "m.x"
+        node.mro = [node]
+    elif kind == "Moduleref":
+        node = N.MypyFile([], [])
+        node._fullname = "other"
+    else:  # CrossRef: a definition that lives in another module
+        node = N.Var("x", AnyType(TypeOfAny.special_form))
+        node._fullname = "other.x"
+    for a in VISIBLE[kind]:
+        setattr(node, a, vals[a])
+    sym = N.SymbolTableNode(vals["kind"], node)
+    sym.module_public = vals["module_public"]
+    sym.module_hidden = vals["module_hidden"]
+    return sym
+
+
+def k3_snapshot(rep: Report) -> None:
+    from mypy import nodes as N
+
+    K = Kernel("mypy.server.astdiff", ["snapshot_symbol_table", "snapshot_definition"], closure=False)
+    rep.kernels_from(K)
+    fn = K["snapshot_symbol_table"]
+    K.ns["snapshot_definition"] = K["snapshot_definition"]
+    K.ns["snapshot_symbol_table"] = fn
+    found: dict[str, Any] = {}
+    n = {"p": 0, "same": 0}
+
+    def struct_eq(x: Any, y: Any) -> Any:
+        if symx.is_sym(x) or symx.is_sym(y):
+            if isinstance(x, (SymBool, bool)) and isinstance(y, (SymBool, bool)):
+                return symx.to_z3bool(x) == symx.to_z3bool(y)
+            return symx.to_z3int(x) == symx.to_z3int(y)
+        if isinstance(x, (tuple, list)) and isinstance(y, (tuple, list)):
+            if len(x) != len(y) or type(x) is not type(y):
+                return z3.BoolVal(False)
+            return z3.And(*[struct_eq(a, b) for a, b in zip(x, y)]) if len(x) else z3.BoolVal(True)
+        if isinstance(x, dict) and isinstance(y, dict):
+            if set(x) != set(y):
+                return z3.BoolVal(False)
+            return z3.And(*[struct_eq(x[k], y[k]) for k in x]) if x else z3.BoolVal(True)
+        return z3.BoolVal(x == y)
+
+    for kind in VISIBLE:
+        ctx = Ctx()
+
+        def body(c: Ctx, kind: str = kind) -> None:
+            tables = []
+            pairs = []
+            for side in ("old", "new"):
+                vals: dict = {a: c.bool(f"{side}.{a}") for a in VISIBLE[kind]}
+                vals["module_public"] = c.bool(f"{side}.module_public")
+                vals["module_hidden"] = c.bool(f"{side}.module_hidden")
+                vals["kind"] = c.int(f"{side}.kind", N.LDEF, N.MDEF)  # LDEF / GDEF / MDEF
+                tables.append({"x": _mk_symbol(kind, vals)})
+                pairs.append(vals)
+            s_old = fn("m", tables[0])
+            s_new = fn("m", tables[1])
+            n["p"] += 1
+            same = struct_eq(s_old, s_new)
+            if c.feasible(same):
+                n["same"] += 1
+            for a in VISIBLE[kind] + ["module_public", "kind"]:
+                va, vb = pairs[0][a], pairs[1][a]
+                eqv = (va.t == vb.t)
+                ok = c.check(z3.Implies(same, eqv), f"{kind}: equal snapshots => equal {a}")
+                if not ok and c.cex:
+                    found.setdefault(f"snapshot_symbol_table does not record the externally visible attribute {a} of a {kind} symbol", (kind, a, c.cex[-1].model))
+
+        ctx.explore(body)
+        rep.add_ctx(f"K3 snapshot sensitivity: {kind}", ctx, visible=VISIBLE[kind] + ["module_public", "kind"])
+    rep.twin("K3: snapshots computed and equal snapshots feasible", n["p"] > 0 and n["same"] > 0)
+    for key, (kind, attr, m) in found.items():
+        rep.sample({"kernel": "snapshot_symbol_table", "class": key, "model": m})
+
+        def replay(d: str, kind: str = kind, attr: str = attr, m: dict = m) -> tuple[bool, str]:
+            import mypy.server.astdiff as AD
+
+            def side(tag: str) -> dict:
+                vals: dict = {a: bool(m.get(f"{tag}.{a}", False)) for a in VISIBLE[kind]}
+                vals["module_public"] = bool(m.get(f"{tag}.module_public", False))
+                vals["module_hidden"] = bool(m.get(f"{tag}.module_hidden", False))
+                vals["kind"] = int(m.get(f"{tag}.kind", N.GDEF))
+                return vals
+
+            va, vb = side("old"), side("new")
+            sa = AD.snapshot_symbol_table("m", {"x": _mk_symbol(kind, va)})  # type: ignore[arg-type]
+            sb = AD.snapshot_symbol_table("m", {"x": _mk_symbol(kind, vb)})  # type: ignore[arg-type]
+            trig = AD.compare_symbol_table_snapshots("m", sa, sb)
+            bad = va[attr] != vb[attr] and not trig
+            return bad, f"{kind} symbol m.x with {attr} {va[attr]} -> {vb[attr]} (old {va}, new {vb}): triggers fired {sorted(trig)}; snapshots {'equal' if sa == sb else 'differ'}"
+
+        rep.candidate(key, f"{kind}.{attr}: {m}", m, replay)
+
+
 def main(args: Any) -> int:
     rep = Report(PID, args.tier, "symbolic execution (symx/z3) of the real change-detection and snapshot-diff functions; stat values, clocks, hashes, snapshot contents symbolic; replay through an in-process dmypy Server vs a fresh mypy run")
     only = set(args.only.split(",")) if args.only else None
@@ -287,6 +406,7 @@ def main(args: Any) -> int:
         "K1: one watched path, one _find_changed step from an arbitrary recorded FileData (mtimes real-valued, sizes >= 0, hashes opaque), file present/absent before and after",
         "K2: two snapshots over names {a,b} (thorough {a,b,c}), kinds {Var, Func, TypeInfo}, opaque payload tokens, one level of nested class table with one member",
     ]
+    rep.bounds.append("K3: one symbol m.x per table, node kinds Var / FuncDef / TypeInfo / module reference / cross-module reference; symbol kind, module_public, module_hidden and the boolean externally visible attributes of the node symbolic on both sides; types and signatures fixed")
     rep.assumptions += [
         "environment contract: a content change changes the file size or its real-valued mtime (documented in FileSystemWatcher's docstring); equal content has equal size",
         "hash equality = content equality",
@@ -296,6 +416,8 @@ def main(args: Any) -> int:
         k1_fswatcher(rep)
     if only is None or "K2" in only:
         k2_astdiff(rep, args.tier)
+    if only is None or "K3" in only:
+        k3_snapshot(rep)
     return rep.finish()
 
 
